@@ -516,7 +516,29 @@ fn controller(world: World, obs: SharedObs) -> Result<(), Violation> {
     // 1. command-free twin (sequential, on this task)
     obs.phase("twin");
     probe::enable();
-    let results = guard_in_task("twin run", || run_cycles(&mut twin, cycles, dt_ms))?;
+    // the twin run also checks that the hook stays attached: a cycle in which statements execute (H2 budget
+    // counter) must show at least one of them to the debug hook (H5b probe) - otherwise every later breakpoint,
+    // pause and step would silently do nothing, in the twin and in the debugged run alike
+    let mut coverage: Vec<(usize, u64)> = vec![];
+    let results = guard_in_task("twin run", || {
+        let mut out = vec![];
+        for i in 0..cycles {
+            twin.set_current_time(Duration::from_millis(dt_ms * i as i64));
+            let (p0, b0) = (probe::len(), verif_hooks::budget::executed());
+            out.push(match twin.execute_cycle() {
+                Ok(()) => "ok".to_string(),
+                Err(e) => format!("err:{e}"),
+            });
+            coverage.push((probe::len() - p0, verif_hooks::budget::executed() - b0));
+        }
+        out
+    })?;
+    if let Some((cycle, (_, executed))) = coverage.iter().enumerate().find(|(_, (seen, executed))| *seen == 0 && *executed > 0) {
+        return Err(Violation::new(
+            "hook/detached",
+            format!("cycle {cycle} of the command-free run executed {executed} statement/loop points but none reached the debug hook: the debugger is no longer attached (per cycle (seen, executed): {coverage:?})"),
+        ));
+    }
     let twin_res = Arc::new(TwinResult { trace: probe::snapshot(), state: world::dump_storage(&twin), results });
     drop(twin);
     let tmap = thread_map(&twin_res.trace, &threads);
